@@ -63,6 +63,14 @@ impl Scalar {
     #[verifier::external_body]
     pub fn random<R: RngArg>(rng: R) -> (s: Scalar) ensures rng.by_value() ==> s == draw_scalar(rng.st()) { unimplemented!() }
 }
+impl Scalar {
+    /// E18: `Field::random(&mut g)` for a local generator g: one draw, the generator advances
+    #[verifier::external_body]
+    pub fn random_mut(rng: &mut ChaCha20Rng) -> (s: Scalar)
+        ensures s == draw_scalar(old(rng).state()), final(rng).state() == next_state(old(rng).state()),
+            final(rng).entropy_seeded() == old(rng).entropy_seeded(), final(rng).origin() == old(rng).origin(),
+    { unimplemented!() }
+}
 impl<const N: usize> AsRefBytes for [u8; N] {
     open spec fn bytes(&self) -> Seq<u8> { self@ }
     #[verifier::external_body]
